@@ -79,6 +79,19 @@ def withinLimits (tooDeep : Nat → Nat → Bool) (permLimit : Nat) (quads : Lis
 def hasSelfRef (quads : List Quad) : Bool :=
   quads.any (fun q => let ls := bnodeLabelsOf q; ls.eraseDups.length != ls.length)
 
+/-- the transcription of the Recommendation gives different documents when every tie of step 5.3 is
+resolved the other way round (`canonicalNQuadsRevTies`) or when the dataset is enumerated backwards: the Recommendation leaves the order of ties (step 5.3 "ordered by hash",
+permutations with equal paths) open, and on this dataset a tie occurs between blank nodes that are
+NOT exchanged by an automorphism (known finding C05-rdfc10-ambiguous-tie: e.g. nodes that differ only
+in WHICH IRI-named graph links them to which neighbour — Hash Related Blank Node ignores the graph
+name of the quad).  On such datasets RDFC-1.0 does not determine the output. -/
+def specAmbiguous (H : Str → Str) (quads : List Quad) (a? : Option Str) : Bool :=
+  match a? with
+  | none => false
+  | some a =>
+    (match Rdfc10Spec.canonicalNQuadsRevTies H quads with | some b => a != b | none => false) ||
+    (match Rdfc10Spec.canonicalNQuads H quads.reverse with | some c => a != c | none => false)
+
 /-- oracle fields of C06 (`out?` = what the model of the implementation produced, if it succeeded).
  * `o.out` = canonical N-Quads per the transcription of the Recommendation (`Deviations.none`), emitted
    whenever the transcription is defined — also when the model fails.  Not emitted for datasets with a
@@ -89,12 +102,13 @@ def hasSelfRef (quads : List Quad) : Bool :=
  * `x.len=1`: a divergence disappears when the transcription is given the length-first skip rule
    (attribution for the former finding C06-smaller-path-length-first). -/
 def specFields (H : Str → Str) (tooDeep : Nat → Nat → Bool) (permLimit : Nat) (quads : List Quad)
-    (out? : Option Str) : List String :=
-  match Rdfc10Spec.canonicalNQuads H quads with
+    (out? : Option Str) (a? : Option Str) (amb : Bool) : List String :=
+  match a? with
   | none => []
   | some a =>
     let st := if withinLimits tooDeep permLimit quads then [kv "o.st" "ok"] else []
     let outF :=
+      if amb then [kv "x.spec" "ambiguous"] else
       if !hasSelfRef quads then
         match out? with
         | some out =>
@@ -116,19 +130,26 @@ def handle (withSpec : Bool) (line : String) : String :=
     match hashByName hn, stringOfHex hx with
     | some H, some s => reply [kv "h" (String.ofList (H s.toList))]
     | _, _ => "bad-op"
-  | "n" :: hn :: dfb :: pl :: _cont :: _seed :: rest =>
+  | "n" :: hn :: dfb :: pl :: cont :: _seed :: rest =>
     match hashByName hn, parseHex32 dfb, pl.toNat?, parseQuads rest with
     | some H, some bits, some permLimit, some quads =>
       let df := Float32.ofBits bits
+      let a? := Rdfc10Spec.canonicalNQuads H quads
+      let amb := specAmbiguous H quads a?
+      let ambF := if amb then [kv "x.amb" "1"] else []
       match Rdfc10.relabelWith H (tooDeepF32 df) permLimit quads with
       | .error e =>
-        reply ([kv "st" (errName e)] ++ (if withSpec then specFields H (tooDeepF32 df) permLimit quads none else []))
+        reply ([kv "st" (errName e)] ++ ambF ++ (if withSpec then specFields H (tooDeepF32 df) permLimit quads none a? amb else []))
       | .ok (rq, idmap) =>
         let out := Rdfc10.serialize (Rdfc10.sortQuads rq)
         let pinned := (Rdfc10.groupSizes H quads).all (· ≤ 20)
-        let base := [kv "st" "ok", kv "out" (hexStr out)] ++ (if pinned then [kv "map" (mapField idmap)] else []) ++
-          [kv "dg" (String.ofList (H out))]
-        let spec := if withSpec then specFields H (tooDeepF32 df) permLimit quads (some out) else []
+        -- on a dataset where RDFC-1.0 itself is ambiguous the bytes depend on the enumeration order, which the
+        -- model only knows for the order-preserving container: elsewhere `out` is informational (`out_amb`)
+        let comparable := !amb || cont == "ord"
+        let base := [kv "st" "ok", kv (if comparable then "out" else "out_amb") (hexStr out)] ++
+          (if pinned then [kv "map" (mapField idmap)] else []) ++
+          (if comparable then [kv "dg" (String.ofList (H out))] else []) ++ ambF
+        let spec := if withSpec then specFields H (tooDeepF32 df) permLimit quads (some out) a? amb else []
         reply (base ++ spec)
     | _, _, _, _ => "bad-op"
   | _ => "bad-op"
